@@ -62,7 +62,7 @@ func rejected(k kase) {
 	}
 }
 
-const dnaLetters = "acmgrsvtwyhkdbn" // all distinct, all paired in DNAredundant
+const dnaLetters = "axcmgrsvtwyhkdbn-" // all distinct, all paired in DNAredundant (x: the masking letter, paired with itself though not a letter of the alphabet)
 const protLetters = "abcdefghiklmnpq"
 
 type sq interface {
